@@ -254,16 +254,40 @@ Definition module_join_msgs (cfg : config) (c : N) (SS : session) : list deliver
   (if cfg_vikja cfg then [(c, MVikjaState (map snd (map_to_list (s_actions SS))))] else []) ++
   (if cfg_odal cfg then [(c, MOdalState (map snd (map_to_list (s_assets SS))))] else []).
 
+(* a fresh session under a new (or recycled) numeric id *)
+Definition create_session (hint : N) (st : state) : N * state :=
+  let '(n, g) := gen_new hint (sids st) in
+  let uuid := next_uuid st + 1 in
+  (n, {| sessions := <[n := session0 uuid]> (sessions st); sids := g;
+         next_uuid := uuid; next_ping := next_ping st; conns := conns st;
+         receipts := receipts st; gauge := (gauge st + 1)%Z |}).
+
+(* connection [c] (in no session) becomes a participant of the registered session [n] *)
+Definition enter (cfg : config) (st : state) (c rid n ots : N) : hres :=
+  match sessions st !! n with
+  | None => (st, [], VSkip) (* unreachable *)
+  | Some SS =>
+    let p := u32_succ (s_pgen SS) in
+    let S1 := set_frames (λ f, f ∪ {[c]}) (set_parts (<[p := c]>) (set_pgen p SS)) in
+    let oj := [(c, MJoinResp rid n (s_uuid S1) p)] in
+    let os := if flag_on cfg F_SESSION_STATE then [] else [(c, session_state_msg S1)] in
+    let ob := if flag_on cfg F_JOIN_B then [] else broadcast S1 p (MJoinB ots p) in
+    let st3 := set_sessions (<[n := S1]>) st in
+    let st4 := upd_conn c (λ cn, set_lat None (set_own (λ _, ∅) (set_cur (Some (n, p)) cn))) st3 in
+    (st4, oj ++ os ++ ob ++ module_join_msgs cfg c S1, VOk)
+  end.
+
+Definition already_joined (cn : conn) (sid : sidspec) : bool :=
+  match c_cur cn, sid with
+  | Some (cur, _), SId n => bool_decide (cur = n)
+  | _, _ => false
+  end.
+
 Definition join (cfg : config) (st : state) (c : N) (rid : N) (sid : sidspec) (ots hint : N) : hres :=
   match conns st !! c with
   | None => (st, [], VSkip)
   | Some cn =>
-    let already :=
-      match c_cur cn, sid with
-      | Some (cur, _), SId n => bool_decide (cur = n)
-      | _, _ => false
-      end in
-    if already then
+    if already_joined cn sid then
       (* still joined: the modules then answer the join message again *)
       let mo := match c_cur cn with
                 | Some (cur, _) => match sessions st !! cur with
@@ -272,38 +296,16 @@ Definition join (cfg : config) (st : state) (c : N) (rid : N) (sid : sidspec) (o
       (st, (c, MError rid E_ALREADY_JOINED) :: mo, VOk)
     else
       let '(st1, o1) := leave cfg st c in
-      let target :=
-        match sid with
-        | SNew => None
-        | SId n => match sessions st1 !! n with Some _ => Some (Some n) | None => Some None end
-        | SJunk _ => Some None
-        end in
-      match target with
-      | Some None => (st1, o1 ++ [(c, MError rid E_NOT_FOUND)], VOk)
-      | _ =>
-        (* the session to enter: existing, or freshly created *)
-        let '(n, st2) :=
-          match target with
-          | Some (Some n) => (n, st1)
-          | _ =>
-            let '(n, g) := gen_new hint (sids st1) in
-            let uuid := next_uuid st1 + 1 in
-            (n, {| sessions := <[n := session0 uuid]> (sessions st1); sids := g;
-                   next_uuid := uuid; next_ping := next_ping st1; conns := conns st1;
-                   receipts := receipts st1; gauge := (gauge st1 + 1)%Z |})
-          end in
-        match sessions st2 !! n with
-        | None => (st2, o1, VSkip) (* unreachable *)
-        | Some SS =>
-          let p := u32_succ (s_pgen SS) in
-          let S1 := set_frames (λ f, f ∪ {[c]}) (set_parts (<[p := c]>) (set_pgen p SS)) in
-          let oj := [(c, MJoinResp rid n (s_uuid S1) p)] in
-          let os := if flag_on cfg F_SESSION_STATE then [] else [(c, session_state_msg S1)] in
-          let ob := if flag_on cfg F_JOIN_B then [] else broadcast S1 p (MJoinB ots p) in
-          let st3 := set_sessions (<[n := S1]>) st2 in
-          let st4 := upd_conn c (λ cn, set_lat None (set_own (λ _, ∅) (set_cur (Some (n, p)) cn))) st3 in
-          (st4, o1 ++ oj ++ os ++ ob ++ module_join_msgs cfg c S1, VOk)
-        end
+      match sid with
+      | SJunk _ => (st1, o1 ++ [(c, MError rid E_NOT_FOUND)], VOk)
+      | SId n =>
+          match sessions st1 !! n with
+          | None => (st1, o1 ++ [(c, MError rid E_NOT_FOUND)], VOk)
+          | Some _ => let '(st2, o2, v) := enter cfg st1 c rid n ots in (st2, o1 ++ o2, v)
+          end
+      | SNew =>
+          let '(n, st2) := create_session hint st1 in
+          let '(st3, o2, v) := enter cfg st2 c rid n ots in (st3, o1 ++ o2, v)
       end
   end.
 
@@ -602,10 +604,11 @@ Definition dispatch (cfg : config) (st : state) (c : N) (r : req) : hres :=
     | RPose eid _ _ => (upd_conn c (λ cn, set_pending (<[eid := r]> (c_pposes cn)) (c_pcomps cn) cn) st, [], VOk)
     | RCompUpdate tid eid _ _ =>
         (upd_conn c (λ cn, set_pending (c_pposes cn) (<[(tid, eid) := r]> (c_pcomps cn)) cn) st, [], VOk)
-    | RUndecodable 14 =>
-        (* decoding fails in the receiver goroutine: the connection is ended *)
-        let '(st1, o) := disconnect cfg st c in (st1, o, VErr)
-    | _ => (upd_conn c (λ cn, set_queue (c_queue cn ++ [r]) cn) st, [], VOk)
+    | _ =>
+        if match r with RUndecodable ty => ty =? 14 | _ => false end then
+          (* decoding fails in the receiver goroutine: the connection is ended *)
+          let '(st1, o) := disconnect cfg st c in (st1, o, VErr)
+        else (upd_conn c (λ cn, set_queue (c_queue cn ++ [r]) cn) st, [], VOk)
     end
   end.
 
